@@ -426,6 +426,7 @@ class Act:
         on_state=None,
         on_update=None,
         on_use=None,
+        ambient_errstate=None,
         trace=None,
         world=None,
     ):
@@ -444,6 +445,7 @@ class Act:
         self.on_state = on_state
         self.on_update = on_update
         self.on_use = on_use
+        self.ambient_errstate = ambient_errstate
         self.trace = trace  # None | {"count": True} | {"at": N}
         self.world = world
         # observations
@@ -474,7 +476,7 @@ class Act:
         self._fun_buf = None
         self._fault_idx = {}
         for f in self.faults:
-            if f["kind"] in ("raise", "nest", "scribble_arg"):
+            if f["kind"] in ("raise", "nest", "scribble_arg", "fpe"):
                 self._fault_idx.setdefault((f["actor"], int(f["at"])), []).append(f)
         self._crash_at = None
         for f in self.faults:
@@ -507,6 +509,13 @@ class Act:
                     self._log(actor, j, arg, b"RAISE:" + f["exc"].encode())
                     self.raised = (f["exc"], "%s#%d" % (actor, j))
                     raise make_exc(f["exc"], "%s#%d" % (actor, j))
+                if f["kind"] == "fpe":
+                    # the user's code overflows here: whether that raises is decided by numpy's
+                    # error state, which belongs to the caller of the minimiser
+                    self.fired["fpe"] += 1
+                    self.fired["fpe_in_ls"] += 1 if self.in_ls else 0
+                    self._log(actor, j, arg, b"FPE")
+                    np.multiply(np.float64(1e308), np.float64(10.0))
                 if f["kind"] == "nest" and self.world is not None:
                     self.fired["nest"] += 1
                     self.fired["nest_in_ls"] += 1 if self.in_ls else 0
@@ -770,7 +779,12 @@ class Act:
             old_trace = sys.gettrace()
             sys.settrace(tracer.glob)
         try:
-            self.result = _main.minimize_lbfgsb(**kw)
+            if self.ambient_errstate:
+                # the caller's own numpy error state (e.g. overflow raises) for the whole call
+                with np.errstate(**self.ambient_errstate):
+                    self.result = _main.minimize_lbfgsb(**kw)
+            else:
+                self.result = _main.minimize_lbfgsb(**kw)
         except (SimCrash, SimInterrupt) as e:
             self.crashed = e
             if isinstance(e, SimInterrupt):
